@@ -612,12 +612,45 @@ func (e *Engine) modularCall(c *CallCtx, ct *Contract) *Term {
 	} else if tt, ok := c.resT.(*types.Tuple); !ok || tt.Len() > 0 {
 		resArgs = []*Term{res}
 	}
+	subst := map[int]*Term{}
 	for _, cl := range ct.Ensures {
 		g := e.evalClause(c.fr, cl, c.args, resArgs, c.st, pre, c.pc)
 		e.assume(c.pc, g)
+		// a postcondition of the form  result == <term>  determines the result:
+		// use the term itself (keeps object identities syntactic)
+		for _, cj := range conj(g) {
+			if cj.Op == "=" {
+				for _, r := range resArgs {
+					if cj.Args[0] == r && cj.Args[1].Op != "sym" {
+						subst[r.id] = cj.Args[1]
+					} else if cj.Args[1] == r && cj.Args[0].Op != "sym" {
+						subst[r.id] = cj.Args[0]
+					} else if cj.Args[0] == r && strings.HasPrefix(cj.Args[1].SVal, "p:") {
+						subst[r.id] = cj.Args[1]
+					} else if cj.Args[1] == r && strings.HasPrefix(cj.Args[0].SVal, "p:") {
+						subst[r.id] = cj.Args[0]
+					}
+				}
+			}
+		}
 	}
 	if tt, ok := c.resT.(*types.Tuple); ok && tt.Len() == 0 {
 		return nil
+	}
+	if len(subst) > 0 {
+		if res.Op == "tuple" {
+			els := make([]*Term, len(res.Elems))
+			for i, x := range res.Elems {
+				els[i] = x
+				if y, ok := subst[x.id]; ok {
+					els[i] = y
+				}
+			}
+			return Tuple(els...)
+		}
+		if y, ok := subst[res.id]; ok {
+			return y
+		}
 	}
 	return res
 }
